@@ -10,7 +10,7 @@ CLAIMS["C19"] = dict(
          "one) over {type} x {name: exact, pattern, '*', no match} x {unit} x {meter selector: wildcard, exact, name only, other version, other name, ...} x {view specs: identity, "
          "rename+description+Sum, LastValue+attribute filter, Histogram+filter, Drop} against four instruments on two meters (one unversioned/schema-less): exported streams == streams "
          "shaped by each matching view + default stream of each unmatched instrument, compared on name, description, unit, point kind, attribute keys. (c) Every ScopeConfigurator rule list of "
-         "length <= 3 (thorough 4) over {name-equals x, name-equals y, version matcher, attribute matcher} x {enable, disable} x default, for tracer, meter and logger providers with four "
+         "length <= 4 (thorough 5) over {name-equals x, name-equals y, version matcher, attribute matcher} x {enable, disable} x default, for tracer, meter and logger providers with four "
          "scopes: exactly the scopes enabled by the first matching rule deliver their span / metric / log record. (d) Every ordered pair of identity requests (8 tracer/meter identities, 96 "
          "(thorough 120) logger identities incl. logger name, defaulted library name and attributes) under three configurators: same object iff equal in all components.",
     note=SEQ_NOTE)
